@@ -155,6 +155,120 @@ theorem pySetItem_mid (pre : List Int) (x v : Int) (post : List Int) :
   simp [h1]
   omega
 
+/-! ### repetition and descending ranges (`[x] * n`, `range(a, a - n, -1)`) -/
+
+theorem pyRepeat_single {α} (x : α) (n : Nat) : pyRepeat [x] (n : Int) = List.replicate n x := by
+  unfold pyRepeat
+  simp only [Int.toNat_natCast]
+  induction n with
+  | zero => rfl
+  | succ n ih => simp [List.replicate_succ, ih]
+
+theorem pyRepeat_single_len {α β} (x : α) (s : List β) : pyRepeat [x] (pyLen s) = List.replicate s.length x :=
+  pyRepeat_single x s.length
+
+theorem pyRepeat_single_len_add {α β} (x : α) (s : List β) (k : Nat) :
+    pyRepeat [x] (pyLen s + (k : Int)) = List.replicate (s.length + k) x := by
+  have : pyLen s + (k : Int) = ((s.length + k : Nat) : Int) := by simp [pyLen]
+  rw [this, pyRepeat_single]
+
+/-- `range(a, a - n, -1)` = `a, a-1, …, a-n+1`. -/
+theorem pyRange_down (a : Int) (n : Nat) :
+    pyRange a (a - (n : Int)) (-1) = (List.range n).map (fun (k : Nat) => a - (k : Int)) := by
+  unfold pyRange rangeList
+  have h1 : ¬ ((-1 : Int) > 0) := by omega
+  have h2 : (-1 : Int) < 0 := by omega
+  simp only [h1, h2, if_false, if_true]
+  by_cases hn : n = 0
+  · subst hn; simp
+  · have h3 : a - (n : Int) < a := by omega
+    simp only [h3, if_true]
+    have hc : ((a - (a - (n : Int)) - 1) / (- -1) + 1).toNat = n := by
+      have : a - (a - (n : Int)) - 1 = (n : Int) - 1 := by omega
+      rw [this]
+      simp
+    rw [hc]
+    apply List.map_congr_left
+    intro k _
+    try omega
+
+/-! ### fuel loops: `for _ in List.replicate fuel () do …` -/
+
+theorem forIn_replicate_succ {m} [Monad m] {σ} (n : Nat) (s : σ) (f : Unit → σ → m (ForInStep σ)) :
+    forIn (List.replicate (n + 1) ()) s f = (f () s >>= fun r => match r with
+      | .done s' => pure s'
+      | .yield s' => forIn (List.replicate n ()) s' f) := by
+  rw [List.replicate_succ, List.forIn_cons]
+  congr 1
+
+/-! ### sets as duplicate-free lists -/
+
+theorem pySetAdd_mem {α} [BEq α] [LawfulBEq α] (s : List α) (x y : α) : y ∈ pySetAdd s x ↔ y ∈ s ∨ y = x := by
+  unfold pySetAdd
+  by_cases h : x ∈ s
+  · have hc : s.contains x = true := by simpa using h
+    simp only [hc, if_true]
+    constructor
+    · exact Or.inl
+    · rintro (h' | rfl)
+      · exact h'
+      · exact h
+  · simp [h]
+
+theorem pySetUpdate_mem {α} [BEq α] [LawfulBEq α] (xs s : List α) (y : α) : y ∈ pySetUpdate s xs ↔ y ∈ s ∨ y ∈ xs := by
+  unfold pySetUpdate
+  induction xs generalizing s with
+  | nil => simp
+  | cons x xs ih =>
+    rw [List.foldl_cons, ih, pySetAdd_mem]
+    simp only [List.mem_cons]
+    constructor
+    · rintro ((h | h) | h)
+      · exact Or.inl h
+      · exact Or.inr (Or.inl h)
+      · exact Or.inr (Or.inr h)
+    · rintro (h | h | h)
+      · exact Or.inl (Or.inl h)
+      · exact Or.inl (Or.inr h)
+      · exact Or.inr h
+
+theorem pySetAdd_nodup {α} [BEq α] [LawfulBEq α] (s : List α) (x : α) (h : s.Nodup) : (pySetAdd s x).Nodup := by
+  unfold pySetAdd
+  by_cases hx : x ∈ s
+  · have hc : s.contains x = true := by simpa using hx
+    simp only [hc, if_true]
+    exact h
+  · have hc : s.contains x = false := by simpa using hx
+    simp only [hc]
+    show (s ++ [x]).Nodup
+    rw [List.nodup_append]
+    refine ⟨h, by simp, ?_⟩
+    intro a ha b hb
+    simp only [List.mem_singleton] at hb
+    subst hb
+    intro e
+    exact hx (e ▸ ha)
+
+theorem pySetUpdate_nodup {α} [BEq α] [LawfulBEq α] (xs s : List α) (h : s.Nodup) : (pySetUpdate s xs).Nodup := by
+  unfold pySetUpdate
+  induction xs generalizing s with
+  | nil => simpa using h
+  | cons x xs ih => exact ih _ (pySetAdd_nodup s x h)
+
+/-- `k in d` in terms of the keys. -/
+theorem pyDictContains_iff {κ ν} [BEq κ] [LawfulBEq κ] (d : Dict κ ν) (k : κ) :
+    pyDictContains d k = true ↔ k ∈ d.map Prod.fst := by
+  unfold pyDictContains
+  induction d with
+  | nil => simp
+  | cons e d ih =>
+    rcases e with ⟨k', v⟩
+    by_cases h : k = k'
+    · subst h; simp [List.lookup]
+    · have h' : (k == k') = false := by simpa using h
+      simp only [List.lookup, h', List.map_cons, List.mem_cons, h, false_or]
+      exact ih
+
 /-- `none` of a model that uses `Option` for a failed index = `IndexError`. -/
 def optErr {α} : Option α → Except PyErr α
   | some a => .ok a
